@@ -4,14 +4,14 @@
 package main
 
 import (
-	"sync/atomic"
-	"math"
 	"context"
 	"fmt"
+	"math"
 	"sort"
 	"strconv"
 	"strings"
 	"sync"
+	"sync/atomic"
 	"time"
 
 	"github.com/aptpod/iscp-go/iscp"
@@ -71,33 +71,33 @@ func (s *storage) Remove(ctx context.Context, id uuid.UUID, seq uint32) (iscp.Da
 }
 
 type impl struct {
-	diag     string // diagnostics of the last incomplete resume (goes into the evidence)
-	b        *broker.Broker
-	conn     *iscp.Conn
-	up       *iscp.Upstream
-	pol      *policy
-	st       *storage
-	mu       sync.Mutex
-	sendHook []string
-	ackHook  []string
-	logPos   int
-	nSend    int
-	nAck     int
-	results  int            // results sent by the broker so far
-	waiting  map[uint32]bool // seqs cut and not yet acked (a waiter is registered)
-	sentinel int
-	accepted map[int][]string // oracle: points written per data id token, in order
-	closed   bool
-	unsettled string
-	reliable bool
-	resumedEv int
-	onlyInc   int
-	lostInFlight int
-	sortAck      bool
+	diag             string // diagnostics of the last incomplete resume (goes into the evidence)
+	b                *broker.Broker
+	conn             *iscp.Conn
+	up               *iscp.Upstream
+	pol              *policy
+	st               *storage
+	mu               sync.Mutex
+	sendHook         []string
+	ackHook          []string
+	logPos           int
+	nSend            int
+	nAck             int
+	results          int             // results sent by the broker so far
+	waiting          map[uint32]bool // seqs cut and not yet acked (a waiter is registered)
+	sentinel         int
+	accepted         map[int][]string // oracle: points written per data id token, in order
+	closed           bool
+	unsettled        string
+	reliable         bool
+	resumedEv        int
+	onlyInc          int
+	lostInFlight     int
+	sortAck          bool
 	dupTransmissions int
-	seenOnInc    map[string]string // incarnation/sequence -> chunk as reported
-	bufBytes     int    // oracle: payload bytes written since the last chunk was cut
-	sizeViolation string
+	seenOnInc        map[string]string // incarnation/sequence -> chunk as reported
+	bufBytes         int               // oracle: payload bytes written since the last chunk was cut
+	sizeViolation    string
 }
 
 func waitUntil(f func() bool) bool {
@@ -418,7 +418,16 @@ func (i *impl) exec(op string) string {
 			return "hang"
 		}
 		if len(st.DataPointsBuffer) > 0 {
-			waitUntil(func() bool { return i.up.State().LastIssuedSequenceNumber > st.LastIssuedSequenceNumber })
+			// an interval policy holds accepted points (whatever their payload size, zero included) for one interval at most
+			if !waitUntil(func() bool { return i.up.State().LastIssuedSequenceNumber > st.LastIssuedSequenceNumber }) && i.sizeViolation == "" {
+				n := 0
+				for _, g := range st.DataPointsBuffer {
+					n += len(g.DataPoints)
+				}
+				if n > 0 {
+					i.sizeViolation = fmt.Sprintf("the interval elapsed (`tick`) with %d accepted point(s) in the buffer and no chunk was cut within the watchdog: accepted data is held longer than one interval", n)
+				}
+			}
 		} else {
 			// the loop is back at its select once it accepts a second, harmless interaction: an explicit flush of the empty buffer
 			i.up.Flush(ctx)
